@@ -194,9 +194,15 @@ func (d *Date) UnmarshalBinary(data []byte) error {
 	if l != 7 { // version(1)+year(4)+month(1)+day(1)
 		return fmt.Errorf("date.Date.UnmarshalBinary: %w: expected 7 instead of %d", ErrInvalidLength, l)
 	}
-	d.year = (int32(data[1])<<24 | int32(data[2])<<16 | int32(data[3])<<8 | int32(data[4])) - 1
-	d.month = data[5] - 1
-	d.day = data[6] - 1
+	year := int32(data[1])<<24 | int32(data[2])<<16 | int32(data[3])<<8 | int32(data[4])
+	month, day := data[5], data[6]
+	// time.Date normalizes non-existing month or day to another date
+	if y, m, dd := time.Date(int(year), time.Month(month), int(day), 0, 0, 0, 0, time.UTC).Date(); y != int(year) || m != time.Month(month) || dd != int(day) {
+		return fmt.Errorf("date.Date.UnmarshalBinary: invalid date: year %d, month %d, day %d", year, month, day)
+	}
+	d.year = year - 1
+	d.month = month - 1
+	d.day = day - 1
 	return nil
 }
 
